@@ -310,3 +310,47 @@ def replay_widths(prop, v):
     for x in r["violations"]:
         errs += x["errors"]
     return ["[tlc] " + e for e in errs]
+
+
+def surface_stage(prop, tier, name):
+    """which handle types can be duplicated: Triomphe.tla's CloneKinds / CopyKinds against the trait impls the crate has
+    (a UniqueArc that could be cloned would be a second 'unique' handle that passed no gate)"""
+    wd = workdir(prop)
+    stage_spec(wd, ["Triomphe.tla"])
+    res = {"name": name, "states": 0, "transitions": 0, "evaluations": 0, "nontrivial": 0, "traces": 0, "samples": [],
+           "violations": [], "notes": [], "exhaustive": True, "detail": {}}
+    mod = ["---- MODULE MC_Surface ----", "EXTENDS Triomphe, Json", 'ASSUME PrintT(<<"SURFACE", ToJson([clone |-> CloneKinds, copy |-> CopyKinds])>>)', "===="]
+    with open(os.path.join(wd, "MC_Surface.tla"), "w") as f:
+        f.write("\n".join(mod) + "\n")
+    cfg = ("SPECIFICATION Spec\nCONSTANTS\n  NSlots = 1\n  NBlocks = 1\n  MaxFrames = 0\n  CountBits = 8\n  KeepHist = FALSE\n"
+           '  Hows = {"new"}\n  Ops = {}\nCHECK_DEADLOCK FALSE\n')
+    out, st = run_tlc(wd, "MC_Surface.tla", cfg, "surface", workers=1, timeout=600, java_opts=["-Xmx2g"])
+    want = None
+    for line in open(out, errors="replace"):
+        if line.startswith('<<"SURFACE"'):
+            want = json.loads(line.rstrip()[len('<<"SURFACE", "'):-len('">>')].replace('\\"', '"'))
+    if want is None:
+        raise ToolError("TLC did not print the duplicable kinds: %s" % st)
+    res["states"], res["transitions"], res["tlc"] = st["distinct"], st["generated"], st
+    clone_kinds = set(want["clone"]) | set(want["copy"]) | {"Thin"}
+    exe = build_harness("a")
+    outp = os.path.join(wd, "surface.json")
+    r = subprocess.run([exe, "widths", outp], cwd=wd, stdout=subprocess.PIPE, stderr=subprocess.STDOUT, text=True, timeout=120)
+    if r.returncode != 0:
+        raise ToolError("tvh widths failed: %s" % r.stdout[-300:])
+    n = 0
+    for row in json.load(open(outp)):
+        if row.get("fact") != "duplicable":
+            continue
+        n += 1
+        k = row["kind"]
+        base = "Unq" if k.startswith("Unq") else k
+        exp_clone, exp_copy = base in clone_kinds, base in set(want["copy"])
+        if row["clone"] != exp_clone or row["copy"] != exp_copy:
+            res["violations"].append({"stage": name, "key": "surface:%s" % k, "row": row,
+                                      "errors": ["[kind] handle type %s: Clone = %s, Copy = %s; the specification has Clone = %s, Copy = %s "
+                                                 "(a handle that can be duplicated without passing through the count is one more owner nobody counted)"
+                                                 % (k, row["clone"], row["copy"], exp_clone, exp_copy)]})
+    res["evaluations"] = res["traces"] = res["nontrivial"] = n
+    res["rule"] = "every handle type: has it a Clone / Copy impl"
+    return res
